@@ -4,6 +4,9 @@ CONSTANTS
   MaxGens = 4
   MaxClients = 3
   MaxFaults = 3
+  MaxStalls = 0
+  MaxAsk = 0
+  AskSelectsQuit = TRUE
   FixCallEntry = FALSE
   FixResetSnapshot = TRUE
   FixRemoveOwn = TRUE
